@@ -120,12 +120,14 @@ PERS_ENDINGS = [
 
 def plain_endings(chk, tier, wd):
     jobs = []
-    for cls in lp.ONE_SHOT:
-        for name, sp, exp, ak in ENDINGS:
-            jobs.append((cls, name, dict(sp, cls=cls, quiet=False), exp, ak))
-    for cls in lp.PERSISTENT:
-        for name, sp, exp, ak in PERS_ENDINGS:
-            jobs.append((cls, name, dict(sp, cls=cls, quiet=False), exp, ak))
+    # how death is first observed matters (a wait() in progress reads the report on a different path than a later look)
+    for via in ('wait', 'poll', 'late'):
+        for cls in lp.ONE_SHOT:
+            for name, sp, exp, ak in ENDINGS:
+                jobs.append((cls, name + '/' + via, dict(sp, cls=cls, quiet=False, observe_via=via), exp, ak))
+        for cls in lp.PERSISTENT:
+            for name, sp, exp, ak in PERS_ENDINGS:
+                jobs.append((cls, name + '/' + via, dict(sp, cls=cls, quiet=False, observe_via=via), exp, ak))
     # main-script classes (value class / exception class defined in the launching script)
     for cls in lp.ONE_SHOT:
         jobs.append((cls, 'main-return-MainVal', dict(cls=cls, target='main:main_ret', targs=[3], quiet=False, script=True), ('value', 'MainVal(3)'), True))
@@ -145,7 +147,7 @@ def plain_endings(chk, tier, wd):
         accept = ak is True or (ak == 'proc' and 'Thread' not in cls)
         chk.case(('ending', cls, name))
         chk.count('plain_ending_cases')
-        sh = judge(chk, case, name, exp, accept, 'ending=' + name)
+        sh = judge(chk, case, name, exp, accept, 'ending=' + name.split('/')[0] + ('' if name.endswith('/wait') or '/' not in name else ':observed-by-' + name.split('/')[1]))
         if len(chk.samples) < 3 and sh:
             chk.sample({'cls': cls, 'ending': name, 'shape': sh, 'observations': 6})
 
